@@ -1021,6 +1021,17 @@ def regression(W):
                 nd = Node(("bit", 1), f"{v.py}[{idx.py}]", f"(XIdx {v.cq} {idx.cq})", [v, idx], tag=f"index:{k}3[computed u2]/clocked", key="index_runtime:computed_index",
                           dims={"runtime_index", "force_clocked"})
                 out.append(("reg", nd))
+    # nested constant slices: two and three levels with non-zero lower bounds (every level adds its offset), index at the end
+    for k, nm in (("bv", "v"), ("u", "a"), ("s", "s")):
+        for chain in ([(7, 2), (4, 1)], [(7, 2), (4, 1), (2, 1)], [(6, 1), (5, 2), (3, 2)], [(7, 3), (4, 2), (1, 1)], [(7, 1), (6, 1), (5, 1), (3, 2)]):
+            x = P(f"{nm}8", (k, 8))
+            nd, py, cq = x, x.py, x.cq
+            for hi_, lo_ in chain:
+                py, cq = f"{py}[{hi_}:{lo_}]", f"(XSlice {cq} {hi_}%N {lo_}%N)"
+            w_ = chain[-1][0] - chain[-1][1] + 1
+            out.append(("reg", Node(("bv", w_), py, cq, [x], tag=f"slice:{k}8" + "".join(f"[{h}:{l}]" for h, l in chain), key=f"slice_nested{len(chain)}:{k}")))
+            out.append(("reg", Node(("bit", 1), f"{py}[{w_ - 1}]", f"(XIdxC {cq} {w_ - 1}%N)", [x], tag=f"index:{k}8" + "".join(f"[{h}:{l}]" for h, l in chain) + f"[{w_ - 1}]",
+                                    key=f"index_nested{len(chain)}:{k}")))
     U = ("u", 3)
     for clocked in (False, True):
         b = P("b2", ("u", 2))
